@@ -1,7 +1,7 @@
-(* C10  I-vectors are posterior means; covariance floor; EM monotonicity for a rank-1 subspace with fixed covariances
-   (rank > 1 and covariance updating: numerical evidence only, see DESIGN.md - partial). *)
+(* C10  I-vectors are posterior means; covariance floor; EM monotonicity for a rank-1 subspace, with fixed covariances and with
+   covariance updating (no floor active); rank > 1: numerical evidence only, see DESIGN.md - partial. *)
 From Coq Require Import Reals List.
-From BLE Require Import Num.InstR Model.IVector Proofs.RLemmas Proofs.IVectorR Proofs.JFARank1 Proofs.IVRank1.
+From BLE Require Import Num.InstR Model.IVector Proofs.RLemmas Proofs.IVectorR Proofs.JFARank1 Proofs.IVRank1 Proofs.IVRank1Sigma.
 Import ListNotations IR.
 Open Scope R_scope.
 
@@ -60,3 +60,27 @@ Theorem C10_rank1_training_iteration_monotone (inv : list (list R) -> list (list
   iv_marginal D m (iv_T m) X <= iv_marginal D m (iv_T m') X.
 Proof. exact (iv_em_iter_monotone_rank1 inv C D floor m m' X). Qed.
 Print Assumptions C10_rank1_training_iteration_monotone.
+
+(* The same with covariance updating (update_sigma = True), no floor active: the code's iteration is the exact EM step on the pair
+   (T, sigma) and never decreases the marginal likelihood of the training statistics as a function of both,
+     sum_s [ b_s^2/(2 L_s) - 1/2 ln L_s - 1/2 sum_j ( N_sj ln sigma_j + Q_sj / sigma_j ) ],  Q_s the centred second-order statistics. *)
+Theorem C10_rank1_iteration_with_sigma_is_the_em_step (inv : list (list R) -> list (list R)) (C D : nat) (floor : R) (m : ivm) (X : list gstat) :
+  inv1_ok inv -> ivm_ok C D 1 m -> Forall (IVectorR.gstat_ok C D) X ->
+  Forall (fun w2 => nth 0 (nth 0 w2 []) 0 <> 0) (a_w2 (e_step inv C D 1 m X)) ->
+  sigma_floor_inactive inv C D floor m X ->
+  let m' := m_step inv D 1 true floor m (e_step inv C D 1 m X) in
+  iv_mu m' = iv_mu m
+  /\ tcol (iv_T m') = em_v_step (tcol (iv_T m)) (concat (iv_sigma m)) (map (utt_NG D m) X)
+  /\ concat (iv_sigma m') = em_s_step (tcol (iv_T m)) (concat (iv_sigma m)) (map (utt_NGQ D m) X).
+Proof. exact (iv_em_rank1_sigma inv C D floor m X). Qed.
+Print Assumptions C10_rank1_iteration_with_sigma_is_the_em_step.
+
+Theorem C10_rank1_training_iteration_with_sigma_monotone (inv : list (list R) -> list (list R)) (C D : nat) (floor : R) (m : ivm) (X : list gstat) :
+  inv1_ok inv -> ivm_ok C D 1 m -> Forall (IVectorR.gstat_ok C D) X -> 0 < floor ->
+  Forall (fun w2 => 0 < nth 0 (nth 0 w2 []) 0) (a_w2 (e_step inv C D 1 m X)) ->
+  Forall (fun n => 0 < n) (a_n (e_step inv C D 1 m X)) ->
+  sigma_floor_inactive inv C D floor m X ->
+  let m' := m_step inv D 1 true floor m (e_step inv C D 1 m X) in
+  iv_marginal2 D m (iv_T m) (iv_sigma m) X <= iv_marginal2 D m (iv_T m') (iv_sigma m') X.
+Proof. exact (iv_em_sigma_monotone_rank1 inv C D floor m X). Qed.
+Print Assumptions C10_rank1_training_iteration_with_sigma_monotone.
